@@ -134,8 +134,8 @@ func transTerm(p *pool, t *Trans) string {
 		for j, g := range o.Gets {
 			gets[j] = "(" + p.s(g.V) + ", " + boolT(g.H) + ")"
 		}
-		regs[i] = fmt.Sprintf("mkO %s %d %s %s %s %s [%s]", labelsTerm(p, o.Range), o.Len, boolT(o.Empty), p.s(o.Str), p.s(o.Bytes),
-			strconv.FormatUint(o.Hash, 10), strings.Join(gets, "; "))
+		regs[i] = fmt.Sprintf("mkO %s %d %s %s %s %s %s %s [%s]", labelsTerm(p, o.Range), o.Len, boolT(o.Empty), p.s(o.Str), p.s(o.Bytes),
+			strconv.FormatUint(o.Hash, 10), strconv.FormatUint(o.Stable, 10), strconv.FormatUint(o.StableRef, 10), strings.Join(gets, "; "))
 	}
 	cmp := make([]string, len(t.Cmp))
 	for i, c := range t.Cmp {
